@@ -115,11 +115,14 @@ func ipow(a, n int) int {
 }
 
 // coreNames: the reduced alphabet used at the deepest level of a tier.
-var coreNames = []string{"fn", "let", "type", "struct", "match", "if", "return", "import", "catch", "x", "1", "str",
+// `import` is left out of the reduced alphabets on purpose: in this tree a misplaced import
+// kills the compiler process (parser goroutine), every such input costs five process
+// spawns, and the class is already found at length <=2 over the full alphabet.
+var coreNames = []string{"fn", "let", "type", "struct", "match", "if", "return", "for", "catch", "x", "1", "str",
 	"lp", "rp", "lc", "rc", "semi", "colon", "walrus", "eq", "dot", "comma"}
 
 // core4Names: the still smaller alphabet of the length-4 level (thorough).
-var core4Names = []string{"fn", "let", "type", "struct", "match", "return", "import", "catch", "x", "1",
+var core4Names = []string{"fn", "let", "type", "struct", "match", "return", "if", "catch", "x", "1",
 	"lp", "rp", "lc", "rc", "semi", "colon"}
 
 func subAlphabet(names []string) []sym {
